@@ -304,6 +304,9 @@ func (c21) Execute(sc *engine.Scenario) *engine.Result {
 		lf := func() uint16 { return m.APU.VerifWave().LFSR }
 		guard := periodClocks/4 + 8
 		if p0 := sc.P("nr43_before", -1); p0 >= 0 && !fresh {
+			// the width bit stays as it is across the rewrite: going over to the 7-bit sequence in mid-run
+			// can legitimately freeze the register (its low seven bits all alike), which no statement rules out
+			p0 = p0&^0x08 | int64(nr43&0x08)
 			m.Write(0xff22, uint8(p0))
 			m.Write(0xff23, 0x80)
 			m.RunCycles(uint64(sc.P("retune_after", 1)))
